@@ -29,4 +29,8 @@ def check(ctx, run):
     parsers.r09_4(ctx, run, 'R16.5', ROOTS)
     parsers.r_widths(ctx, run, 'R16.6')
     textparser.r02_12(ctx, run, rule='R16.6/R02.12')
+    safety.forbidden_calls(ctx, run, 'R16.9', ROOTS, ('String::from_utf8_lossy', 'from_utf8_lossy', 'String::from_utf16_lossy', 'char::from_u32_unchecked'),
+                           'the parser', 'ill-formed input is silently repaired (U+FFFD substituted) instead of being rejected with an error',
+                           only=lambda p_: p_.startswith(('util::', 'parser::', 'jsonpath::parser::', 'keypath::')))
+    textparser.r02_3(ctx, run, rule='R16.6/R02.3')
     return report.finish(run, level='other', explanation=EXPLANATION, assumptions=["nom 7 contracts as for C09", "A3"])
